@@ -8,7 +8,7 @@ from .. import dagsweep as D
 from .. import sweepprops as S
 
 LEVEL = 'proof'
-NEEDS = ['Base', 'Digraph', 'DSep', 'DSepProofs', 'Markov', 'MarkovProofs', 'CorrDag']
+NEEDS = ['Bridge', 'BridgeProofs', 'Base', 'Digraph', 'DSep', 'DSepProofs', 'Markov', 'MarkovProofs', 'CorrDag']
 TYPES = ['->', '<>', '--']
 
 
